@@ -920,6 +920,10 @@ fn gen_sm(r: &mut Rng, prop: &str) -> String {
 }
 
 fn gen_level(r: &mut Rng, codec: &str) -> String {
+    // every i64 is a legal CompressionLevel for a library caller (the codecs clamp): out-of-range values now and then
+    if codec != "store" && r.chance(1, 12) {
+        return r.pick(&["0", "-1", "-100", "10", "22", "23", "255", "9223372036854775807", "-9223372036854775808"]).to_string();
+    }
     match codec {
         "deflate" => r.pick(&["min", "def", "max", "1", "6", "9"]).to_string(),
         "zstd" => r.pick(&["min", "def", "1", "3", "9", "15"]).to_string(),
